@@ -69,7 +69,9 @@ def scope_exit_filter(ctx, rule):
             return True
         if e == "ret_true" and not st:
             return Bad("returns True without having set _cancelled_caught")
+        if e == "raise_rem" and not st:
+            return Bad("the scope's own cancellation was split out of the group and swallowed, the rest re-raised, but cancelled_caught is not set")
         return st
 
-    ctx.paths(rule, ex, [("mark", "self._cancelled_caught = True"), ("ret_true", "return True")], step, False, lambda k, s, f: None,
-              instance="cancelled_caught precedes the absorbing return")
+    ctx.paths(rule, ex, [("mark", "self._cancelled_caught = True"), ("ret_true", "return True"), ("raise_rem", f"raise {rem}")], step, False,
+              lambda k, s, f: None, instance="cancelled_caught precedes every absorbing exit (return True, or re-raising only the remainder)")
